@@ -20,6 +20,21 @@ CHECKS = {
              "g++/ASan/UBSan; harness c15_rs.cpp and checks/c15.py",
         technique="Lean 4 proof over an executable model + exhaustive/boundary differential correspondence",
         design="§5 C15"),
+    "C14": dict(
+        text="Lean 4 theorems, for every vector shape (any number of elements, zero-length elements anywhere), every byte count and "
+             "every destination shape, that each modelled operation equals its effect on the flat address sequence: sum, shrink_to, "
+             "extract_front/back (discard, copy-out layout, into a view with n slots incl. the specified -1 branch with nothing lost), "
+             "contiguous extract (view and owning, incl. copy-when-straddling), slice, and the memcpy/pipe core (_copy_pipe_iov: count = "
+             "min(size,|dst|,|src|), reads exactly the first n source bytes, writes exactly the first n destination bytes). The "
+             "element-by-element model is tied to the code by op-sequence programs run on the real iovector_view/IOVector under "
+             "ASan/UBSan (iovector.cpp compiled into the harness) and diffed at element level with the compiled model; an independent "
+             "flat-byte-string oracle supplies failing inputs",
+        note="trusted: Lean kernel + 3 standard axioms; shrink_less_than and truncate-with-growth, push/pop and the IOAlloc allocator "
+             "are exercised/modelled as code but have no flat-spec theorem; destination and source of memcpy/pipe do not alias in "
+             "generated programs (memcpy with overlap is undefined); capacity asserts are off in the -DNDEBUG build, shapes are "
+             "generated within capacity 28",
+        technique="Lean 4 proof over an executable model + op-sequence differential correspondence under sanitizers",
+        design="§5 C14"),
     "C20": dict(
         text="Lean 4 theorems for every path string and base: whatever PathCat forwards is base++path and its component walk never "
              "goes above the base (no escape); every path whose prefixes all stay inside and that fits the buffer is forwarded (legal "
